@@ -91,6 +91,7 @@ func main() {
 	jobs := flag.Int("j", 16, "parallel workers")
 	det := flag.Int("det", 6, "additional runs of the optimizer on identical copies (determinism)")
 	emit := flag.String("emit", "", "also write the text of every generated grammar to DIR/g<i>.peg (for whole-pipeline runs of the pigeon binary)")
+	flag.BoolVar(&handlerShapes, "handler-shapes", false, "every grammar gets the targeted throw/recover families (delegating handlers); implies the optthrow lift")
 	driver := flag.String("driver", "/verif/lean/.lake/build/bin/pvdriver", "the Lean driver: every (original, optimized) pair is judged by the verified validator Opt.validate (\"\" = skip)")
 	flag.Parse()
 	detRuns = *det
@@ -277,7 +278,13 @@ func entryView(g *ast.Grammar, name string) *ast.Grammar {
 	return v
 }
 
+// handlerShapes: see the flag of the same name
+var handlerShapes bool
+
 func evaluate(seed int64, i, k int, lf lifts) (it *item) {
+	if handlerShapes {
+		lf.throw = true
+	}
 	it = &item{}
 	r := pvpeg.SubRand(seed, 0, i)
 	name := func(kind string) string { return fmt.Sprintf("pvopt-s%d-i%d-%s.txt", seed, i, kind) }
@@ -443,6 +450,8 @@ func evaluate(seed int64, i, k int, lf lifts) (it *item) {
 		for j := 0; j < k; j++ {
 			var in string
 			switch {
+			case entry == entries[0] && j < len(sh.hints):
+				in = sh.hints[j]
 			case j < 5 || len(sentences) == 0:
 				in = pvpeg.Sentence(r, view)
 				sentences = append(sentences, in)
